@@ -94,9 +94,25 @@ def _values_slice(e):
     return is_values(e)
 
 
-def from_end_offset(e, k):
+def rev_iter_nexts(p):
+    """the next() calls on `values.iter().rev()` along a path, in order: the j-th yields the element at distance j+1 from the end"""
+    out = []
+    for c in p.calls():
+        if callee_is(c, "Iterator::next") and len(c[3]) == 1:
+            it = peel(c[3][0], ())
+            if callee_is(it, "Iterator::rev") and len(it[3]) == 1:
+                src = peel(it[3][0], ())
+                if callee_is(src, "[T]::iter") and _values_slice(src[3][0]) and c not in out:
+                    out.append(c)
+    return out
+
+
+def from_end_offset(e, k, nexts=()):
     """distance from the end of `values` (1 = top) that the component expression `e` of topK addresses, or None"""
     e0 = e
+    y = peel(e, ())
+    if y[0] == "field" and y[2] == 0 and y[3] == "Some" and y[1] in nexts:
+        return list(nexts).index(y[1]) + 1
     if match(e, TryOk(Call("Stack::top", Through(Param(1)), nargs=1))):
         return 1
     x = peel(e, ())
@@ -414,24 +430,69 @@ def check(ctx):
                 ctx.check(ok, "R04.4", "%s/tuple-follows-pop-order(top-first)" % name, short(p.ret, 3), f.at(),
                           bad_detail="%s must return the popped values in pop order (first component = top); extracted %s" % (name, short(p.ret, 6)))
         ctx.floor("R04.3", len(paths), 2, name + " paths")
-    f = ctx.fn(S + "discard")
-    paths = [p for p in ctx.paths(f) if p.end != "unreachable"]
-    n_loop = 0
-    for p in paths:
-        pops = [c for c in p.calls() if callee_is(c, "Stack::pop", "Vec::pop")]
-        rels = [r for r in (full_relation(c[0], c[1] != 0, lambda e: e == ("param", 2), is_size) for c in p.conds) if r]
-        if pops:
-            ctx.check("a<=b" in rels and len(pops) == 1, "R04.3", "discard/n<=size-dominates-removal", cond_str(p)[:140], f.at(),
-                      bad_detail="discard removes on a path that has not established n <= size: [%s]" % cond_str(p)[:200])
-            lp = [c for c in p.conds if c[0][0] == "discr" and callee_is(c[0][1], "Iterator::next") and c[1] == 1]
-            okl = bool(lp) and match(lp[0][0][1][3][0], Through(Call("IntoIterator::into_iter", Agg("Range::Range", Const(0), Param(2)), nargs=1)))
-            if p.end.startswith("loop:"):
-                n_loop += 1
-                ctx.check(okl, "R04.4", "discard/one-pop-per-iteration-of-0..n", cond_str(p)[:160], f.at())
-        elif is_err_return(p):
-            u = underflow_err(p)
-            ctx.check("a>b" in rels and u is not None and u[3][0] == ("param", 2) and is_size(u[3][1]), "R04.3", "discard/too-few->Underflow{n,size}-without-removal", short(p.ret, 4), f.at())
-    ctx.check(n_loop == 1, "R04.4", "discard/loop-body-found", "%d loop body path(s)" % n_loop, f.at())
+    def discard_counted_loop(ctx):
+        f = ctx.fn(S + "discard")
+        paths = [p for p in ctx.paths(f) if p.end != "unreachable"]
+        n_loop = 0
+        for p in paths:
+            pops = [c for c in p.calls() if callee_is(c, "Stack::pop", "Vec::pop")]
+            rels = [r for r in (full_relation(c[0], c[1] != 0, lambda e: e == ("param", 2), is_size) for c in p.conds) if r]
+            if pops:
+                ctx.check("a<=b" in rels and len(pops) == 1, "R04.3", "discard/n<=size-dominates-removal", cond_str(p)[:140], f.at(),
+                          bad_detail="discard removes on a path that has not established n <= size: [%s]" % cond_str(p)[:200])
+                lp = [c for c in p.conds if c[0][0] == "discr" and callee_is(c[0][1], "Iterator::next") and c[1] == 1]
+                okl = bool(lp) and match(lp[0][0][1][3][0], Through(Call("IntoIterator::into_iter", Agg("Range::Range", Const(0), Param(2)), nargs=1)))
+                if p.end.startswith("loop:"):
+                    n_loop += 1
+                    ctx.check(okl, "R04.4", "discard/one-pop-per-iteration-of-0..n", cond_str(p)[:160], f.at())
+            elif is_err_return(p):
+                u = underflow_err(p)
+                ctx.check("a>b" in rels and u is not None and u[3][0] == ("param", 2) and is_size(u[3][1]), "R04.3", "discard/too-few->Underflow{n,size}-without-removal", short(p.ret, 4), f.at())
+        ctx.check(n_loop == 1, "R04.4", "discard/loop-body-found", "%d loop body path(s)" % n_loop, f.at())
+
+    def discard_shrink_to_target(ctx):
+        """the same clauses for the spelling `let target = size.checked_sub(n).ok_or(Underflow{n,size})?; while size() > target { pop()? }`"""
+        from . import ckit as K
+        f = ctx.fn(S + "discard")
+        paths = K.live(ctx.cpaths(f))
+        cs = None
+        for p in paths:
+            for c in p.calls():
+                if callee_is(c, "usize::checked_sub") and len(c[3]) == 2 and is_size(c[3][0]) and c[3][1] == ("param", 2):
+                    cs = c
+        ctx.check(cs is not None, "R04.3", "discard/n<=size-dominates-removal", "target = size.checked_sub(n)", f.at(),
+                  bad_detail="discard neither compares n with the size nor computes size.checked_sub(n) before removing")
+        if cs is None:
+            return
+        target = ("field", cs, 0, "Some")
+        n_loop = 0
+        for p in paths:
+            pops = [c for c in p.calls() if callee_is(c, "Stack::pop", "Vec::pop")]
+            some = K.discr_is(p, lambda o: o == cs, 1)
+            none = K.discr_is(p, lambda o: o == cs, 0)
+            rl = K.rels(p, norm=lambda e: e)
+            more = any(op == "Gt" and is_size(a) and K.strip(b, calls=()) == target for a, op, b in rl) or any(op == "Lt" and is_size(b) and K.strip(a, calls=()) == target for a, op, b in rl)
+            done = any(op == "Le" and is_size(a) and K.strip(b, calls=()) == target for a, op, b in rl) or any(op == "Ge" and is_size(b) and K.strip(a, calls=()) == target for a, op, b in rl)
+            kind, pay = K.outcome(p)
+            if pops:
+                ctx.check(some and more and len(pops) == 1, "R04.3", "discard/n<=size-dominates-removal", cond_str(p)[:160], f.at(),
+                          bad_detail="discard removes on a path that has not established n <= size (checked_sub(size, n) is Some) and size > target: [%s]" % cond_str(p)[:200])
+                if p.end.startswith("loop:"):
+                    n_loop += 1
+                    ctx.ok("R04.4", "discard/one-pop-per-iteration-of-0..n", "one pop per iteration while size() > size0 - n: exactly n removals", f.at())
+                elif kind == "err":
+                    ctx.check(K.conv_free(pay) == ("field", pops[0], 0, "Err"), "R04.3", "discard/pop-error-propagated", short(p.ret, 4), f.at())
+            elif kind == "err":
+                u = K.conv_free(pay)
+                ctx.check(none and u[0] == "agg" and path_ends(u[2], "StackError::Underflow") and u[3][0] == ("param", 2) and is_size(u[3][1]), "R04.3",
+                          "discard/too-few->Underflow{n,size}-without-removal", short(p.ret, 4), f.at())
+            elif kind == "ok":
+                ctx.check(some and done, "R04.4", "discard/stops-at-target", cond_str(p)[:160], f.at(),
+                          bad_detail="discard returns Ok on a path that has not reached size() <= size0 - n: [%s]" % cond_str(p)[:200])
+        ctx.check(n_loop == 1, "R04.4", "discard/loop-body-found", "%d loop body path(s)" % n_loop, f.at())
+
+    from . import ckit as _K
+    _K.either(ctx, discard_counted_loop, discard_shrink_to_target, note="spelled as shrink-to-target loop")
     for name in ("top", "top2", "top3", "size", "is_empty", "is_full", "max_stack_size"):
         f = ctx.fn(S + name)
         ctx.check(f.locals[1]["ty"].get("k") == "ref", "R04.3", name + "/takes-&self", f.locals[1]["ty"]["s"], f.at())
@@ -450,7 +511,8 @@ def check(ctx):
             if not shape:
                 good = False
                 break
-            offs = [from_end_offset(c, k) for c in r[3][0][3]]
+            nexts = rev_iter_nexts(q)
+            offs = [from_end_offset(c, k, nexts) for c in r[3][0][3]]
             good = good and offs == list(range(1, k + 1))
         ctx.check(good, "R04.4", "%s/(top,second%s)-indices" % (name, ",third" if k == 3 else ""), ("offsets from the end %s: " % offs) + (short(okp[0].ret, 4)[:200] if okp else "-"), f.at(),
                   bad_detail="%s must return (last, values[len-2]%s); extracted offsets from the end %s in %s" % (name, ", values[len-3]" if k == 3 else "", offs, short(okp[0].ret, 8) if okp else "-"))
@@ -466,7 +528,9 @@ def check(ctx):
             okc = bool(errs)
             for p in errs:
                 u = underflow_err(p)
-                lt = any(len_lt_k(c[0], c[1], k) for c in p.conds)
+                nx = rev_iter_nexts(p)
+                lt = any(len_lt_k(c[0], c[1], k) for c in p.conds) or \
+                    any(c[0][0] == "discr" and c[0][1] in nx and c[1] != 1 and nx.index(c[0][1]) < k for c in p.conds)
                 okc = okc and lt and u is not None and match(u, Agg("StackError::Underflow", Const(k), lambda e: is_size(e)))
         ctx.check(okc, "R04.3", "%s/too-few->Underflow{%d,size}" % (name, k), "size check", f.at(),
                   bad_detail="%s must report Underflow{num_requested: %d, num_present: size()} exactly when fewer than %d elements are present" % (name, k, k))
